@@ -3,7 +3,9 @@ package c05
 import (
 	"fmt"
 	"os"
+	"regexp"
 	"sort"
+	"strconv"
 	"strings"
 	"sync/atomic"
 	"testing"
@@ -40,6 +42,8 @@ type PTask struct {
 	Mode       string // direct | basic | fairmq
 	Critical   bool
 	MachineIdx int // -1: no machine_id constraint at role level
+	ShareWith  int // -1: a task template of its own; k: uses the task template of task k (whose template-level fields it then has)
+	RoleBind   int // inbound TCP channels declared on the role (in addition to those of the task template)
 }
 
 type PCase struct {
@@ -118,17 +122,27 @@ func runPlace(c PCase) (res vh.Result) {
 	wf := fmt.Sprintf("pw%dx%d", os.Getpid(), n)
 	var sb strings.Builder
 	fmt.Fprintf(&sb, "name: %s\ndefaults:\n  deploy_timeout: 9s\nroles:\n", wf)
-	idx := map[string]int{}
 	for i, t := range c.Tasks {
 		cls := fmt.Sprintf("pc%dx%dt%d", os.Getpid(), n, i)
-		idx[cls] = i
-		fmt.Fprintf(&sb, "  - name: g%d\n%s    roles:\n      - name: t%d\n", i, consYAML(t.GroupCons, "    "), i)
+		if t.ShareWith >= 0 && t.ShareWith < i {
+			cls = fmt.Sprintf("pc%dx%dt%d", os.Getpid(), n, t.ShareWith)
+		}
+		fmt.Fprintf(&sb, "  - name: g%d\n%s    roles:\n      - name: t%d\n        vars:\n          tix: \"%d\"\n", i, consYAML(t.GroupCons, "    "), i, i)
+		if t.RoleBind > 0 {
+			sb.WriteString("        bind:\n")
+			for b := 0; b < t.RoleBind; b++ {
+				fmt.Fprintf(&sb, "          - name: rin%d\n            type: pull\n            transport: zeromq\n            addressing: tcp\n", b)
+			}
+		}
 		rc := append([][2]string{}, t.RoleCons...)
 		if t.MachineIdx >= 0 {
 			rc = append(rc, [2]string{"machine_id", hostNames[t.MachineIdx]})
 		}
 		sb.WriteString(consYAML(rc, "        "))
 		fmt.Fprintf(&sb, "        task:\n          load: %s\n          critical: %v\n", cls, t.Critical)
+		if t.ShareWith >= 0 && t.ShareWith < i {
+			continue // the template was written for the task it is shared with
+		}
 		var cy strings.Builder
 		fmt.Fprintf(&cy, "name: %s\ncontrol:\n  mode: %s\nwants:\n  cpu: %g\n  memory: %g\n", cls, t.Mode, t.CPU, t.Mem)
 		if len(t.Static) > 0 {
@@ -152,7 +166,7 @@ func runPlace(c PCase) (res vh.Result) {
 			}
 		}
 		cy.WriteString(consYAML(t.ClassCons, ""))
-		cy.WriteString("command:\n  shell: true\n  value: \"sleep 1000\"\n")
+		cy.WriteString("defaults:\n  tix: none\ncommand:\n  shell: true\n  value: \"sleep 1000 #tix={{ tix }}#\"\n")
 		w.WriteTask(cls, cy.String())
 	}
 	w.WriteWorkflow(wf, sb.String())
@@ -237,10 +251,20 @@ func runPlace(c PCase) (res vh.Result) {
 	perOffer := map[string]*onOffer{}
 	portsOnAgent := map[string]map[uint64]string{}
 	launched := w.Master.Tasks()[taskMark:]
-	sharedOffer, staticUsed, dynUsed := false, false, false
+	sharedOffer, staticUsed, dynUsed, sharedClass := false, false, false, false
+	tixRe := regexp.MustCompile(`#tix=(\d+)#`)
+	classPrefix := fmt.Sprintf("pc%dx%dt", os.Getpid(), n)
 	for _, t := range launched {
-		i, ok := idx[simworld.ClassOf(t)]
-		if !ok {
+		if !strings.HasPrefix(simworld.ClassOf(t), classPrefix) {
+			continue
+		}
+		val, _ := t.Cmd["value"].(string)
+		m := tixRe.FindStringSubmatch(val)
+		if m == nil {
+			return fail("task-not-identified", "task %s of class %s was launched with command %q", t.ID, simworld.ClassOf(t), val)
+		}
+		i, _ := strconv.Atoi(m[1])
+		if i < 0 || i >= len(c.Tasks) {
 			continue
 		}
 		pt := c.Tasks[i]
@@ -280,17 +304,24 @@ func runPlace(c PCase) (res vh.Result) {
 				}
 			}
 		}
-		want := nStatic + pt.BindTCP
+		want := nStatic + pt.BindTCP + pt.RoleBind
 		if pt.Mode != "basic" {
 			want++
 		}
 		if len(tPorts) < want {
-			return fail("too-few-ports", "task t%d needs %d static + %d channel ports (+control port: %v) but was launched with %d ports %v", i, nStatic, pt.BindTCP, pt.Mode != "basic", len(tPorts), keys(tPorts))
+			return fail("too-few-ports", "task t%d needs %d static + %d channel ports (+control port: %v) but was launched with %d ports %v", i, nStatic, pt.BindTCP+pt.RoleBind, pt.Mode != "basic", len(tPorts), keys(tPorts))
+		}
+		// (the scheduler also hands a control port to tasks that are not controllable; that surplus is not held against it)
+		if slack := map[bool]int{true: 1, false: 0}[pt.Mode == "basic"]; len(tPorts) > want+slack {
+			return fail("too-many-ports", "task t%d needs %d static + %d channel ports (+control port: %v) but was launched with %d ports %v", i, nStatic, pt.BindTCP+pt.RoleBind, pt.Mode != "basic", len(tPorts), keys(tPorts))
+		}
+		if pt.ShareWith >= 0 {
+			sharedClass = true
 		}
 		if nStatic > 0 {
 			staticUsed = true
 		}
-		if pt.BindTCP > 0 {
+		if pt.BindTCP+pt.RoleBind > 0 {
 			dynUsed = true
 		}
 		// (d) pairwise distinct on an agent
@@ -364,7 +395,7 @@ func runPlace(c PCase) (res vh.Result) {
 		}
 	}
 	res.NonTrivial = overridden || unsat || sharedOffer
-	for k, b := range map[string]bool{"constraint-overridden": overridden, "unsatisfiable-task": unsat, "offer-shared-by-tasks": sharedOffer,
+	for k, b := range map[string]bool{"constraint-overridden": overridden, "unsatisfiable-task": unsat, "offer-shared-by-tasks": sharedOffer, "template-shared-by-roles": sharedClass,
 		"static-ports": staticUsed, "dynamic-ports": dynUsed, "deployment-failed": cerr != nil, "deployed": cerr == nil} {
 		if b {
 			res.Classes = append(res.Classes, k)
@@ -467,7 +498,8 @@ func genPlace(t *rapid.T) PCase {
 		pt := PTask{
 			CPU: rapid.SampledFrom([]float64{0.1, 0.25, 0.5, 1}).Draw(t, "wcpu"), Mem: rapid.SampledFrom([]float64{64, 128, 300}).Draw(t, "wmem"),
 			BindTCP: rapid.SampledFrom([]int{0, 0, 1, 2}).Draw(t, "bindTCP"), BindIPC: rapid.SampledFrom([]int{0, 0, 1}).Draw(t, "bindIPC"),
-			Mode: rapid.SampledFrom([]string{"direct", "direct", "basic", "fairmq"}).Draw(t, "mode"), Critical: rapid.Bool().Draw(t, "critical"), MachineIdx: -1}
+			Mode: rapid.SampledFrom([]string{"direct", "direct", "basic", "fairmq"}).Draw(t, "mode"), Critical: rapid.Bool().Draw(t, "critical"), MachineIdx: -1, ShareWith: -1,
+			RoleBind: rapid.SampledFrom([]int{0, 0, 0, 1, 2}).Draw(t, "roleBind")}
 		target := rapid.IntRange(0, na-1).Draw(t, "target")
 		genTaskCons(t, c.Agents[target], &pt, i == unsatTask)
 		if rapid.IntRange(0, 2).Draw(t, "hasMachine") > 0 {
@@ -486,6 +518,22 @@ func genPlace(t *rapid.T) PCase {
 		case 2:
 			pt.Static = [][2]uint64{{base, base}, {base + 2, base + 2}}
 		}
+		// several roles may run the same task template: the template-level part is then that of the earlier task
+		if i > 0 && rapid.IntRange(0, 2).Draw(t, "shareTemplate") == 0 {
+			k := rapid.IntRange(0, i-1).Draw(t, "shareWith")
+			for c.Tasks[k].ShareWith >= 0 {
+				k = c.Tasks[k].ShareWith
+			}
+			o := c.Tasks[k]
+			if len(o.Static) > 0 && rapid.IntRange(0, 3).Draw(t, "shareCollidingStatic") != 0 {
+				c.Tasks = append(c.Tasks, pt) // two roles with one template that names static ports collide on one agent: mostly avoided
+				continue
+			}
+			pt.ShareWith, pt.ClassCons, pt.CPU, pt.Mem, pt.Static, pt.BindTCP, pt.BindIPC, pt.Mode = k, o.ClassCons, o.CPU, o.Mem, o.Static, o.BindTCP, o.BindIPC, o.Mode
+			// placed like the other one (keeps the share of satisfiable workflows where it was); static ports would collide
+			pt.GroupCons, pt.RoleCons, pt.MachineIdx = o.GroupCons, o.RoleCons, o.MachineIdx
+
+		}
 		c.Tasks = append(c.Tasks, pt)
 	}
 	return c
@@ -501,8 +549,13 @@ func TestPlacementFixed(t *testing.T) {
 	big := PAgent{Rack: "r1", Kind: "flp", CPU: 8, Mem: 16384, Ports: [][2]uint64{{9000, 9200}, {30000, 30200}}}
 	small := PAgent{Rack: "r2", Kind: "epn", CPU: 2, Mem: 1024, Ports: [][2]uint64{{9000, 9011}, {30000, 30007}}}
 	mk := func(cpu, mem float64, m int) PTask {
-		return PTask{CPU: cpu, Mem: mem, Mode: "direct", Critical: true, MachineIdx: m, BindTCP: 1}
+		return PTask{CPU: cpu, Mem: mem, Mode: "direct", Critical: true, MachineIdx: m, BindTCP: 1, ShareWith: -1}
 	}
+	// two roles run one task template; only one of them declares inbound channels of its own (either order)
+	vh.Fixed(t, prop, "one-template-different-role-level-channels", PCase{Agents: []PAgent{big}, Tasks: []PTask{
+		{CPU: 0.5, Mem: 128, Mode: "direct", Critical: true, MachineIdx: 0, ShareWith: -1, RoleBind: 2}, {CPU: 0.5, Mem: 128, Mode: "direct", Critical: true, MachineIdx: 0, ShareWith: 0}}}, vh.Confirmed(runPlace))
+	vh.Fixed(t, prop, "one-template-different-role-level-channels-2", PCase{Agents: []PAgent{big}, Tasks: []PTask{
+		{CPU: 0.5, Mem: 128, Mode: "direct", Critical: true, MachineIdx: 0, ShareWith: -1}, {CPU: 0.5, Mem: 128, Mode: "direct", Critical: true, MachineIdx: 0, ShareWith: 0, RoleBind: 1}, {CPU: 0.5, Mem: 128, Mode: "direct", Critical: true, MachineIdx: 0, ShareWith: 0, RoleBind: 2}}}, vh.Confirmed(runPlace))
 	vh.Fixed(t, prop, "two-tasks-fit-one-offer", PCase{Agents: []PAgent{big}, Tasks: []PTask{mk(3, 512, 0), mk(3, 512, 0)}}, vh.Confirmed(runPlace))
 	vh.Fixed(t, prop, "nearer-constraint-overrides", PCase{Agents: []PAgent{big, small}, Tasks: []PTask{{ClassCons: [][2]string{{"rack", "r2"}}, GroupCons: [][2]string{{"rack", "r2"}}, RoleCons: [][2]string{{"rack", "r1"}}, CPU: 1, Mem: 128, Mode: "basic", Critical: true, MachineIdx: -1}}}, vh.Confirmed(runPlace))
 	vh.Fixed(t, prop, "same-static-port-twice-on-one-agent", PCase{Agents: []PAgent{big}, Tasks: []PTask{{CPU: 1, Mem: 128, Mode: "direct", Critical: true, MachineIdx: 0, Static: [][2]uint64{{9001, 9001}}}, {CPU: 1, Mem: 128, Mode: "direct", Critical: true, MachineIdx: 0, Static: [][2]uint64{{9001, 9001}}}}}, vh.Confirmed(runPlace))
